@@ -5,6 +5,8 @@ fn main() {
     let mut readme = String::from_utf8(std::fs::read(readme_file).unwrap()).unwrap();
     readme.write_str("IT WORKS").unwrap();
     dbg!(&readme);
+    // verification hook guard (see MemCase::__verif_backend)
+    println!("cargo:rustc-check-cfg=cfg(epserde_verif)");
     println!("cargo:rerun-if-changed={readme_file}");
     println!("cargo:rustc-env=README={readme}");
 }
